@@ -20,7 +20,7 @@ ASSUMPTIONS = ["relative form: coordinates beyond 1e150 are not generated (emitt
 FUZZ = {'thorough': (16, 40000)}
 CONFIGS = ['scipy']
 BUDGET = {'quick': 24000, 'thorough': 300000}
-REQUIRED = ['Z_emitted', 'ST_emitted', 'multi_subpath', 'exp_format', 'closed_by_curve', 'closed_by_line',
+REQUIRED = ['derived:scaled_neg', 'derived:reversed', 'Z_emitted', 'ST_emitted', 'multi_subpath', 'exp_format', 'closed_by_curve', 'closed_by_line',
             'enlarged_arc', 'through_start']
 
 EPS = 2.0 ** -52
@@ -135,7 +135,7 @@ def path_case(draw):
             cur = end
         if closing == 'line' and cur != start:
             segs.append(['L', cur, list(start)])
-    return {'cls': cls, 'segs': segs}
+    return {'cls': cls, 'segs': segs, 'derive': draw(st.sampled_from(['none', 'none', 'none', 'scaled_neg', 'scaled', 'rotated', 'reversed']))}
 
 
 def strategy(tier, config):
@@ -167,9 +167,19 @@ def check(case, ctx):
         if s[0] in 'LA' and s[1] == s[-1]:
             ctx.discard('zero-length line/arc')
     p = ctx.lib('build', gen.build_path, specs)
-    maxabs = max(max(abs(q[0]), abs(q[1])) for s in specs for q in gen.spec_points(s))
     enlarged = any(s[0] == 'A' and (abs(seg.radius.real) != abs(s[2][0]) or abs(seg.radius.imag) != abs(s[2][1]))
                    for s, seg in zip(specs, p))
+    der = case.get('derive', 'none')
+    if der != 'none':
+        # the path that is serialised is itself the product of an operation (a path is a path however it came about); from here
+        # on everything refers to the segments that object holds
+        p = ctx.lib(der, {'scaled_neg': lambda: p.scaled(-1.5), 'scaled': lambda: p.scaled(2.0), 'rotated': lambda: p.rotated(180, 0j),
+                          'reversed': lambda: p.reversed()}[der])
+        specs = [gen.seg_spec_of(sg) for sg in p]
+        ctx.count('derived:' + der)
+        if not _finite(specs) or any(sp[0] in 'LA' and sp[1] == sp[-1] for sp in specs):
+            ctx.discard('derived path degenerate')
+    maxabs = max(max(abs(q[0]), abs(q[1])) for s in specs for q in gen.spec_points(s))
     nsub = 1 + sum(1 for a, b in zip(specs, specs[1:]) if a[-1] != b[1])
     closed_whole = nsub == 1 and specs[0][1] == specs[-1][-1]
     if closed_whole:
